@@ -7,6 +7,7 @@
 namespace OP2Utility
 {
 	Map::Map() :
+		clipRect{ 0, 0, 0, 0 },
 		versionTag(MapHeader::MinMapVersion),
 		isSavedGame(false),
 		widthInTiles(0),
